@@ -20,7 +20,8 @@ RULE = ("projects of 1-4 conventional classes/interfaces in 1-3 packages (plus, 
         "the whole class on one line and random line breaks (also inside a declaration); comments and string literals "
         "with multi-byte characters before sites; LF / CRLF line ends, with and without a final newline; rename files "
         "with one or two requests, blank lines, trailing newline, surrounding blanks, CRLF; Functions ordered ascending "
-        "or descending; dedicated tagged sub-streams per defect class; non-trivial = at least one site; distinct = distinct input")
+        "or descending; dedicated tagged sub-streams per defect class; non-trivial = at least one site; distinct = distinct input"
+        "; every third project is renamed by `coca refactor -R rename.conf -d coca_reporter/deps.json -p DIR` (built binary); method names hold multi-byte letters and '$' in a fifth of the cases; comments hold ISO-8859-1 bytes")
 TRUSTED_BASE = C01.TRUSTED_BASE + [
     "the code model handed to the refactoring is computed by the Coq model of the two analysis passes from the generator's "
     "facts (and compared with the real passes' result in every case); the order of CodeDataStruct.Functions (a Go map order "
